@@ -323,6 +323,10 @@ def run_job(job, workroot, keep=False):
     if r.ignored_quant:
         r.status, r.reason = 'error', 'back end ignored a quantifier'
         return r
+    nerr = len([o for o in r.failed if o['status'] == 'ERROR'])
+    if nerr and not [o for o in r.failed if o['status'] == 'FAILURE']:
+        r.status, r.reason = 'undecided', 'cbmc reported ERROR for %d obligations (%s)' % (nerr, 'SAT solver ran out of memory' if 'ran out of memory' in alltext else 'see log')
+        return r
     if job.canary and not r.canary_fired and not [o for o in r.failed if o['status'] == 'FAILURE']:
         r.status, r.reason = 'error', 'vacuous: canary after the call did not fire (precondition unsatisfiable or function cannot return)'
         return r
